@@ -1,5 +1,6 @@
 import Kio.Proofs.Foreign
 import Kio.Proofs.Conforms
+import Kio.Proofs.ConformsMix
 import Kio.Model.Current
 import Kio.Generated.All
 /-!
@@ -35,6 +36,13 @@ theorem foreign_is_conforming (env : Env) (pat : Spec.ForeignPat) (hpat : pat.ok
     (havoid : Spec.Schema.avoids (pat.unknown.map (·.1)) s = true)
     (v : Value) (bs : Bytes) (h : Spec.encForeign pat s v = some bs) : Spec.Conforms s v bs :=
   Kio.Spec.encForeign_conforms env pat hpat s hwf havoid v bs h
+
+/-- the bytes the harness produces with `Spec.encMixed` (choices that differ from occurrence to
+    occurrence, derived from a seed) are conforming encodings, for every configuration and seed -/
+theorem mixed_is_conforming (env : Env) (cfg : Spec.MixCfg) (seed : Nat) (s : Schema)
+    (hwf : s.wf env = true) (v : Value) (bs : Bytes) (h : Spec.encMixed cfg seed s v = some bs) :
+    Spec.Conforms s v bs :=
+  Kio.Spec.encMixed_conforms env cfg seed s hwf v bs h
 
 /-- the relation is not vacuous and discriminates: a mixed per-occurrence encoding conforms and
     decodes, is not produced by any single uniform pattern, and descending tags do not conform -/
